@@ -86,7 +86,7 @@ func main() {
 		case "args":
 			h = runArgsCase(cfg)
 		case "msg":
-			h = runMsgCase(cfg, st, i)
+			h = runMsgCase(cfg, st)
 		case "xfer":
 			h = runXferCase(cfg)
 		case "bb":
